@@ -20,6 +20,7 @@ Definition commands : list (str * (list sexp -> sexp)) :=
   ; (S "listen", cmd_listen)
   ; (S "page_tree", cmd_page_tree)
   ; (S "page_spec", cmd_page_spec)
+  ; (S "page_valid", cmd_page_valid)
   ; (S "to_string", cmd_to_string)
   ; (S "execute", cmd_execute)
   ; (S "move", cmd_move)
